@@ -8,6 +8,7 @@ CONSTANTS
   LinkMiuA = 150
   LinkMiuB = 300
   MaxAcc = 1
+  Hows = {"sap"}
   ListenerPresent = TRUE
 PROPERTY CloseCompletes
 CHECK_DEADLOCK FALSE
